@@ -82,8 +82,9 @@ fn params_dt(n: u8) -> Vec<DataType> {
 }
 
 /// Already declared locals of the target, as run-length groups exactly as written to the binary.
-/// 4 and 5 are legal but non-canonical encodings (two groups of one type; an empty last group).
-const NPRE: u8 = 6;
+/// 4 and 5 are legal but non-canonical encodings (two groups of one type; an empty last group); 6 repeats
+/// a type in a later, non-adjacent group.
+const NPRE: u8 = 7;
 fn pre_of(i: u8) -> Vec<(u32, we::ValType)> {
     use we::ValType::*;
     match i {
@@ -92,7 +93,9 @@ fn pre_of(i: u8) -> Vec<(u32, we::ValType)> {
         2 => vec![(1, I32), (1, I64)],
         3 => vec![(1, I64), (3, F32)],
         4 => vec![(1, I32), (1, I32)],
-        _ => vec![(1, I32), (0, I64)],
+        5 => vec![(1, I32), (0, I64)],
+        // one type in two runs that are not adjacent
+        _ => vec![(1, I32), (1, I64), (2, I32)],
     }
 }
 
